@@ -580,6 +580,10 @@ func (j *jsonReader) Bitmask(realtag, tag int) (int32, error) {
 		result := int32(0)
 		for _, part := range parts {
 			part = strings.TrimSpace(part)
+			if part == "" {
+				// An empty mask is written as an empty string.
+				continue
+			}
 			var parsed int64
 			var err error
 			if strings.HasPrefix(part, "0x") {
